@@ -136,6 +136,21 @@ def sfloat(x=0.0):
     return builtins.float(x)
 
 
+class _FloatMeta(type):
+    """the name `float` inside ginjax.ml.stopping_conditions: callable like float() on proxies, and usable as the second
+    argument of isinstance (a Python float, or a symbolic real that stands for one; numpy / jax scalar proxies are not)"""
+
+    def __call__(cls, x=0.0):
+        return sfloat(x)
+
+    def __instancecheck__(cls, x):
+        return isinstance(x, builtins.float) or type(x) is SReal
+
+
+class FloatShim(metaclass=_FloatMeta):
+    pass
+
+
 class MathShim:
     def __getattr__(self, n):
         return getattr(_math, n)
